@@ -287,38 +287,12 @@ def slack_embedding(prog: Program, rep) -> None:
     cs = cp.methods["create_slacks"]
     ff = facts_for(cs)
     loops = [s for s in ff.order if isinstance(s.stmt, ast.For)]
-    if len(loops) != 1:
-        raise AnalysisError("create_slacks: expected a single loop over the constraint rows")
-    lp = loops[0].stmt
-    lbn = ubn = idx = None
-    it = lp.iter
-    tgt = lp.target
-    if isinstance(it, ast.Call) and dotted(it.func) == "enumerate" and isinstance(tgt, ast.Tuple) and len(tgt.elts) == 2:
-        idx = U(tgt.elts[0])
-        it, tgt = it.args[0], tgt.elts[1]
-    if isinstance(it, ast.Call) and dotted(it.func) == "zip" and isinstance(tgt, ast.Tuple) and len(tgt.elts) == 2:
-        p = [q for q in cs.params if q != "self"]
-        if [U(a) for a in it.args] == p[:2]:
-            lbn, ubn = U(tgt.elts[0]), U(tgt.elts[1])
-    if lbn is None or idx is None:
-        raise AnalysisError("create_slacks: loop is not `for i, (lb, ub) in enumerate(zip(cons_lb, cons_ub))`")
-    body0 = ff.at(lp.body[0])
-    LB, UB = U(body0.env.get(lbn, ast.Name(id=lbn))), U(body0.env.get(ubn, ast.Name(id=ubn)))
-    appends = [s for s in ff.order if isinstance(s.stmt, ast.Expr) and isinstance(s.stmt.value, ast.Call) and isinstance(s.stmt.value.func, ast.Attribute)
-               and s.stmt.value.func.attr == "append" and lp in s.loops]
-    ok = len(appends) == 1 and U(appends[0].stmt.value.args[0]) == idx and ("!=", LB, UB) in appends[0].facts and \
-        [f for f in appends[0].facts if f not in loops[0].facts] == [("!=", LB, UB)]
-    rep.check(ok, "slack-rows", cs.qualname, short(appends[0].stmt) if appends else "", "row i gets a slack iff cons_lb[i] != cons_ub[i]", cs.loc())
-    offs = [s for s in ff.order if isinstance(s.stmt, ast.Assign) and isinstance(s.stmt.targets[0], ast.Subscript) and lp in s.loops]
-    ok = len(offs) == 1 and U(offs[0].stmt.targets[0].slice) == idx and U(offs[0].stmt.value) == f"-{lbn}" and ("==", LB, UB) in offs[0].facts
-    rep.check(ok, "slack-offsets", cs.qualname, short(offs[0].stmt) if offs else "", "an equality row i gets the offset -cons_lb[i]", cs.loc())
-    latches = [s for s in ff.order if isinstance(s.stmt, ast.Assign) and any(U(t) == "has_offsets" for t in s.stmt.targets) and lp in s.loops]
-    ok = all(isinstance(s.stmt.value, ast.Constant) and s.stmt.value.value is True for s in latches) and len(latches) >= 1
-    rep.check(ok, "slack-offsets", cs.qualname, short(latches[0].stmt) if latches else "has_offsets",
-              "the 'some equality row has a non-zero right-hand side' flag is latched (only ever set to True inside the loop)", cs.loc(latches[0].stmt) if latches else cs.loc())
-    fin = [s for s in ff.order if isinstance(s.stmt, ast.Assign) and any(U(t) == "self.cons_offsets" for t in s.stmt.targets)]
-    ok = any(U(s.stmt.value) == U(offs[0].stmt.targets[0].value) and any(f[0] == "truthy" and ("has_offsets" in f[1] or "True" in f[1]) for f in s.facts) for s in fin) if offs else False
-    rep.check(ok, "slack-offsets", cs.qualname, "self.cons_offsets = cons_offsets", "the offsets are kept whenever the flag is set", cs.loc())
+    if len(loops) == 1:
+        _create_slacks_loop_form(prog, rep, cs, ff, loops[0])
+    elif not loops:
+        _create_slacks_mask_form(prog, rep, cs, ff)
+    else:
+        raise AnalysisError("create_slacks is in neither the row-loop nor the boolean-mask form")
 
     # --- cons: + offsets, - slacks at slack_positions ----------------------------------------------------
     cn = cp.methods["cons"]
@@ -367,7 +341,7 @@ def slack_embedding(prog: Program, rep) -> None:
     # --- cons_jac: extra block ---------------------------------------------------------------------------
     cj = cp.methods["cons_jac"]
     fj = facts_for(cj)
-    gen = [r for r in returns_of(cj) if ("==", "len(self.slack_positions)", "0") not in fj.at(r).facts]
+    gen = [r for r in returns_of(cj) if not _no_slacks(fj.at(r).facts)]
     ok = False
     fill = None
     detail = ""
@@ -445,21 +419,8 @@ def slack_embedding(prog: Program, rep) -> None:
     ts = cp.methods["transform_sol"]
     ft = facts_for(ts)
     ox, oy = [p for p in ts.params if p != "self"][:2]
-    stores = [s for s in ft.order if isinstance(s.stmt, ast.Assign) and isinstance(s.stmt.targets[0], ast.Subscript) and U(s.stmt.targets[0].value) == "slack_vals"]
-    ok = False
-    if len(stores) == 1:
-        s = stores[0]
-        lp_ = s.loops[-1] if s.loops else None
-        if isinstance(lp_, ast.For) and isinstance(lp_.iter, ast.Call) and dotted(lp_.iter.func) == "enumerate" and U(lp_.iter.args[0]) == "self.slack_positions" and isinstance(lp_.target, ast.Tuple):
-            i_, pos_ = U(lp_.target.elts[0]), U(lp_.target.elts[1])
-            v = _resolve_keep(ft, s.stmt, s.stmt.value, {i_, pos_})
-            ptxt = U(ft.at(s.stmt).env.get(pos_, ast.Name(id=pos_)))
-            v = ast.parse(U(v).replace(ptxt, pos_), mode="eval").body
-            cons_txt = f"self.problem.cons({ox})[{pos_}]"
-            ok = U(s.stmt.targets[0].slice) == i_ and np_call(v, "clip") and len(v.args) == 3 and \
-                [U(a) for a in v.args] == [cons_txt, f"self.problem.cons_lb[{pos_}]", f"self.problem.cons_ub[{pos_}]"]
-    rep.check(ok, "slack-start", ts.qualname, short(stores[0].stmt) if stores else "", "starting slack i = clip(c(x0)[pos], cons_lb[pos], cons_ub[pos]) with pos = slack_positions[i] (one shared row index)", ts.loc())
-    gen = [r for r in returns_of(ts) if ("==", "len(self.slack_positions)", "0") not in ft.at(r).facts]
+    _slack_start(prog, rep, ts, ft, ox)
+    gen = [r for r in returns_of(ts) if not _no_slacks(ft.at(r).facts)]
     ok = False
     if len(gen) == 1:
         v = ft.resolved(gen[0], gen[0].value)
@@ -469,7 +430,7 @@ def slack_embedding(prog: Program, rep) -> None:
     rs_ = cp.methods["restore_sol"]
     fr = facts_for(rs_)
     xn, yn, dn = [p for p in rs_.params if p != "self"][:3]
-    gen = [r for r in returns_of(rs_) if ("==", "len(self.slack_positions)", "0") not in fr.at(r).facts]
+    gen = [r for r in returns_of(rs_) if not _no_slacks(fr.at(r).facts)]
     ok = False
     if len(gen) == 1:
         v = fr.resolved(gen[0], gen[0].value)
@@ -507,3 +468,203 @@ def pipeline(prog: Program, rep) -> None:
             ok_s = els == [f"self.scaling.unscale_primal(__item__({inner}, 0))", f"self.scaling.unscale_dual(__item__({inner}, 1))", f"self.scaling.unscale_bounds_dual(__item__({inner}, 2))"]
     rep.check(ok_n and ok_s, "restore-wiring", rs.qualname, "restore_sol",
               "restore_sol drops the slacks first and then applies unscale_primal / unscale_dual / unscale_bounds_dual to the x / y / d slots", rs.loc())
+
+
+def _create_slacks_loop_form(prog, rep, cs, ff, loop_si) -> None:
+    lp = loop_si.stmt
+    loops = [loop_si]
+    lbn = ubn = idx = None
+    it = lp.iter
+    tgt = lp.target
+    if isinstance(it, ast.Call) and dotted(it.func) == "enumerate" and isinstance(tgt, ast.Tuple) and len(tgt.elts) == 2:
+        idx = U(tgt.elts[0])
+        it, tgt = it.args[0], tgt.elts[1]
+    if isinstance(it, ast.Call) and dotted(it.func) == "zip" and isinstance(tgt, ast.Tuple) and len(tgt.elts) == 2:
+        p = [q for q in cs.params if q != "self"]
+        if [U(a) for a in it.args] == p[:2]:
+            lbn, ubn = U(tgt.elts[0]), U(tgt.elts[1])
+    if lbn is None or idx is None:
+        raise AnalysisError("create_slacks: loop is not `for i, (lb, ub) in enumerate(zip(cons_lb, cons_ub))`")
+    body0 = ff.at(lp.body[0])
+    LB, UB = U(body0.env.get(lbn, ast.Name(id=lbn))), U(body0.env.get(ubn, ast.Name(id=ubn)))
+    appends = [s for s in ff.order if isinstance(s.stmt, ast.Expr) and isinstance(s.stmt.value, ast.Call) and isinstance(s.stmt.value.func, ast.Attribute)
+               and s.stmt.value.func.attr == "append" and lp in s.loops]
+    ok = len(appends) == 1 and U(appends[0].stmt.value.args[0]) == idx and ("!=", LB, UB) in appends[0].facts and \
+        [f for f in appends[0].facts if f not in loops[0].facts] == [("!=", LB, UB)]
+    rep.check(ok, "slack-rows", cs.qualname, short(appends[0].stmt) if appends else "", "row i gets a slack iff cons_lb[i] != cons_ub[i]", cs.loc())
+    offs = [s for s in ff.order if isinstance(s.stmt, ast.Assign) and isinstance(s.stmt.targets[0], ast.Subscript) and lp in s.loops]
+    ok = len(offs) == 1 and U(offs[0].stmt.targets[0].slice) == idx and U(offs[0].stmt.value) == f"-{lbn}" and ("==", LB, UB) in offs[0].facts
+    rep.check(ok, "slack-offsets", cs.qualname, short(offs[0].stmt) if offs else "", "an equality row i gets the offset -cons_lb[i]", cs.loc())
+    latches = [s for s in ff.order if isinstance(s.stmt, ast.Assign) and len(s.stmt.targets) == 1 and isinstance(s.stmt.targets[0], ast.Name) and lp in s.loops
+               and isinstance(s.stmt.value, (ast.Constant, ast.Compare, ast.BoolOp)) and s.stmt.targets[0].id not in (lbn, ubn, idx)]
+    flag_names = {s.stmt.targets[0].id for s in latches}
+    ok = all(isinstance(s.stmt.value, ast.Constant) and s.stmt.value.value is True for s in latches) and len(latches) >= 1
+    rep.check(ok, "slack-offsets", cs.qualname, short(latches[0].stmt) if latches else "has_offsets",
+              "the 'some equality row has a non-zero right-hand side' flag is latched (only ever set to True inside the loop)", cs.loc(latches[0].stmt) if latches else cs.loc())
+    fin = [s for s in ff.order if isinstance(s.stmt, ast.Assign) and any(U(t) == "self.cons_offsets" for t in s.stmt.targets)]
+    ok = any(U(s.stmt.value) == U(offs[0].stmt.targets[0].value) and any(f[0] == "truthy" and (any(n in f[1] for n in flag_names) or "True" in f[1]) for f in s.facts) for s in fin) if offs else False
+    rep.check(ok, "slack-offsets", cs.qualname, "self.cons_offsets = cons_offsets", "the offsets are kept whenever the flag is set", cs.loc())
+
+
+def _canon_mask(e: ast.AST) -> str:
+    """canonical text of a boolean-mask expression: & / np.logical_and -> and(..) sorted, ~ / np.logical_not -> not(..)."""
+    if isinstance(e, ast.BinOp) and isinstance(e.op, ast.BitAnd):
+        return "and(" + ", ".join(sorted([_canon_mask(e.left), _canon_mask(e.right)])) + ")"
+    if np_call(e, "logical_and") and len(e.args) == 2:
+        return "and(" + ", ".join(sorted(_canon_mask(a) for a in e.args)) + ")"
+    if isinstance(e, ast.UnaryOp) and isinstance(e.op, ast.Invert):
+        return "not(" + _canon_mask(e.operand) + ")"
+    if np_call(e, "logical_not") and len(e.args) == 1:
+        return "not(" + _canon_mask(e.args[0]) + ")"
+    if isinstance(e, ast.Call) and dotted(e.func) == "bool" and len(e.args) == 1:
+        return _canon_mask(e.args[0])
+    return U(e)
+
+
+def _create_slacks_mask_form(prog, rep, cs, ff) -> None:
+    lb, ub = [q for q in cs.params if q != "self"][:2]
+    EQ = f"{lb} == {ub}"
+    NE = f"{lb} != {ub}"
+    MASK = "and(" + ", ".join(sorted([EQ, f"{lb} != 0.0"])) + ")"
+    MASK0 = "and(" + ", ".join(sorted([EQ, f"{lb} != 0"])) + ")"
+    # slack positions
+    sp_ = [s for s in ff.order if isinstance(s.stmt, ast.Assign) and any(U(t) == "self.slack_positions" for t in s.stmt.targets)]
+    if len(sp_) != 1:
+        raise AnalysisError("create_slacks (mask form): no unique store to self.slack_positions")
+    v = ff.resolved(sp_[0].stmt, sp_[0].stmt.value)
+    inner = v
+    # strip dtype conversions
+    while True:
+        if isinstance(inner, ast.Call) and isinstance(inner.func, ast.Attribute) and inner.func.attr == "astype":
+            inner = inner.func.value
+        elif np_call(inner, "array", "asarray") and inner.args:
+            inner = inner.args[0]
+        else:
+            break
+    ok = False
+    if np_call(inner, "flatnonzero") and len(inner.args) == 1:
+        ok = _canon_mask(inner.args[0]) in (f"not({EQ})", NE)
+    elif isinstance(inner, ast.Subscript) and const_value(inner.slice) == 0 and np_call(inner.value, "where", "nonzero") and len(inner.value.args) == 1:
+        ok = _canon_mask(inner.value.args[0]) in (f"not({EQ})", NE)
+    elif isinstance(inner, ast.ListComp) and len(inner.generators) == 1 and isinstance(inner.generators[0].target, ast.Name) and len(inner.generators[0].ifs) == 1:
+        g = inner.generators[0]
+        i_ = g.target.id
+
+        class _Strip(ast.NodeTransformer):
+            def visit_Subscript(self, n):
+                self.generic_visit(n)
+                return n.value if isinstance(n.slice, ast.Name) and n.slice.id == i_ else n
+        cond = _Strip().visit(ast.parse(U(g.ifs[0]), mode="eval").body)
+        cond_txt = U(cond)
+        if cond_txt.startswith("not "):
+            cm = "not(" + _canon_mask(cond.operand) + ")"
+        else:
+            cm = _canon_mask(cond)
+        rng = g.iter
+        n_ok = isinstance(rng, ast.Call) and dotted(rng.func) == "range" and len(rng.args) == 1 and U(rng.args[0]) in (
+            f"__item__({lb}.shape, 0)", f"__item__({ub}.shape, 0)", f"len({lb})", f"len({ub})", f"{lb}.size", f"{ub}.size")
+        ok = n_ok and U(inner.elt) == i_ and cm in (f"not({EQ})", NE)
+    if not ok:
+        raise AnalysisError(f"create_slacks (mask form): slack positions `{U(v)[:80]}` not recognised")
+    rep.ok("slack-rows", cs.short, "row i gets a slack iff cons_lb[i] != cons_ub[i] (mask form: flatnonzero(not (lb == ub)))")
+    # offsets
+    offs = [s for s in ff.order if isinstance(s.stmt, ast.Assign) and isinstance(s.stmt.targets[0], ast.Subscript)]
+    ok = False
+    arr = None
+    if len(offs) == 1:
+        t = offs[0].stmt.targets[0]
+        m1 = _canon_mask(ff.resolved(offs[0].stmt, t.slice))
+        val = ff.resolved(offs[0].stmt, offs[0].stmt.value)
+        arr = U(t.value)
+        ok = m1 in (MASK, MASK0, EQ) and isinstance(val, ast.UnaryOp) and isinstance(val.op, ast.USub) and isinstance(val.operand, ast.Subscript) \
+            and U(val.operand.value) == lb and _canon_mask(val.operand.slice) == m1
+    rep.check(ok, "slack-offsets", cs.qualname, short(offs[0].stmt) if offs else "", "an equality row i gets the offset -cons_lb[i] (mask form)", cs.loc())
+    fin = [s for s in ff.order if isinstance(s.stmt, ast.Assign) and any(U(t) == "self.cons_offsets" for t in s.stmt.targets) and not (isinstance(s.stmt.value, ast.Constant) and s.stmt.value.value is None)]
+    ok = False
+    for s in fin:
+        if arr is not None and U(s.stmt.value) == arr:
+            for f in s.facts:
+                if f[0] == "truthy":
+                    try:
+                        e = ast.parse(f[1], mode="eval").body
+                    except SyntaxError:
+                        continue
+                    if isinstance(e, ast.Call) and dotted(e.func) == "bool" and e.args:
+                        e = e.args[0]
+                    if isinstance(e, ast.Call) and isinstance(e.func, ast.Attribute) and e.func.attr == "any" and _canon_mask(e.func.value) in (MASK, MASK0):
+                        ok = True
+    rep.check(ok, "slack-offsets", cs.qualname, "self.cons_offsets = cons_offsets", "the offsets are kept whenever some equality row has a non-zero right-hand side (mask form: mask.any())", cs.loc())
+
+
+def _no_slacks(facts) -> bool:
+    L = "len(self.slack_positions)"
+    return any(f in facts for f in (("==", L, "0"), ("falsy", L, None), ("<=", L, "0"), ("<", L, "1")))
+
+
+def _slack_start(prog, rep, ts, ft, ox) -> None:
+    """starting slack k = clip(c(x0)[pos], cons_lb[pos], cons_ub[pos]) with pos = slack_positions[k]; accepted shapes: the
+    enumerate loop with one store per k, a comprehension over slack_positions stored as a whole, the vectorised fancy-index form."""
+    WHAT = "starting slack i = clip(c(x0)[pos], cons_lb[pos], cons_ub[pos]) with pos = slack_positions[i] (one shared row index)"
+
+    def clip_ok(v, idx_txt):
+        cons_txt = f"self.problem.cons({ox})[{idx_txt}]"
+        return np_call(v, "clip") and len(v.args) == 3 and not v.keywords and \
+            [U(a) for a in v.args] == [cons_txt, f"self.problem.cons_lb[{idx_txt}]", f"self.problem.cons_ub[{idx_txt}]"]
+
+    def is_clip(v):
+        return any(np_call(n, "clip") for n in ast.walk(v))
+
+    cands = []
+    for s in ft.order:
+        st = s.stmt
+        if isinstance(st, ast.Assign) and len(st.targets) == 1 and is_clip(st.value):
+            cands.append(s)
+    if not cands:
+        raise AnalysisError("transform_sol: no statement computing the starting slacks with np.clip found")
+    # follow one level of temporaries: `slack_val = np.clip(..)` then `slack_vals[i] = slack_val`
+    finals = []
+    for s in cands:
+        t = s.stmt.targets[0]
+        if isinstance(t, ast.Name) and s.loops:
+            for q in ft.order:
+                if q.index > s.index and isinstance(q.stmt, ast.Assign) and isinstance(q.stmt.targets[0], ast.Subscript) and U(q.stmt.value) == t.id and q.loops == s.loops:
+                    finals.append(q)
+        else:
+            finals.append(s)
+    if len(finals) != 1:
+        raise AnalysisError(f"transform_sol: expected one store of the starting slacks, found {len(finals)}")
+    s = finals[0]
+    st = s.stmt
+    tgt = st.targets[0]
+    ok = False
+    lp_ = s.loops[-1] if s.loops else None
+    if isinstance(lp_, ast.For):
+        it = ft.resolved(lp_, lp_.iter) if False else lp_.iter
+        if isinstance(it, ast.Call) and dotted(it.func) == "enumerate" and U(it.args[0]) == "self.slack_positions" and isinstance(lp_.target, ast.Tuple) and isinstance(tgt, ast.Subscript):
+            i_, pos_ = U(lp_.target.elts[0]), U(lp_.target.elts[1])
+            v = _resolve_keep(ft, st, st.value, {i_, pos_})
+            ptxt = U(ft.at(st).env.get(pos_, ast.Name(id=pos_)))
+            v = ast.parse(U(v).replace(ptxt, pos_), mode="eval").body
+            ok = U(tgt.slice) == i_ and clip_ok(v, pos_)
+        elif isinstance(it, ast.Call) and dotted(it.func) == "range" and isinstance(lp_.target, ast.Name) and isinstance(tgt, ast.Subscript):
+            i_ = lp_.target.id
+            v = _resolve_keep(ft, st, st.value, {i_})
+            ok = U(tgt.slice) == i_ and clip_ok(v, f"self.slack_positions[{i_}]") and len(it.args) == 1 and \
+                U(ft.resolved(lp_, it.args[0])) in ("len(self.slack_positions)", "__item__(self.slack_positions.shape, 0)")
+        else:
+            raise AnalysisError("transform_sol: loop computing the starting slacks not recognised")
+    else:
+        whole = isinstance(tgt, ast.Name) or (isinstance(tgt, ast.Subscript) and isinstance(tgt.slice, ast.Slice) and tgt.slice.lower is None and tgt.slice.upper is None and tgt.slice.step is None)
+        v = st.value
+        while np_call(v, "array", "asarray", "fromiter") and v.args:
+            v = v.args[0]
+        if isinstance(v, (ast.ListComp, ast.GeneratorExp)) and len(v.generators) == 1 and not v.generators[0].ifs and isinstance(v.generators[0].target, ast.Name):
+            g = v.generators[0]
+            pos_ = g.target.id
+            elt = _resolve_keep(ft, st, v.elt, {pos_})
+            ok = whole and U(ft.resolved(st, g.iter)) == "self.slack_positions" and clip_ok(elt, pos_)
+        elif np_call(v, "clip"):
+            ok = whole and clip_ok(ft.resolved(st, v), "self.slack_positions")
+        else:
+            raise AnalysisError("transform_sol: computation of the starting slacks not recognised")
+    rep.check(ok, "slack-start", ts.qualname, short(st), WHAT, ts.loc(st))
